@@ -494,7 +494,7 @@ def finish_reports(ck, T, binname):
 
 
 def run(ck):
-    n = 90 if ck.quick() else 1500
+    n = 480 if ck.quick() else 3000
     bad = vlib.step_lean(ck, "RlModel.Thm.C12", THEOREMS, extra_targets=["drv_c12"])
     ok, log = vlib.step_cargo(ck, ["c12"])
     if not ok:
